@@ -54,6 +54,9 @@ def directive_cases(rng, thorough):
             # garbage in the unused upper half of the slot must not matter for int-sized arguments
             if w <= 4 and rng.random() < 0.3 and cv not in "di":
                 slot |= 0xABCD << 32
+            # hh / h: the int argument is converted to the narrow type before printing, whatever its upper bytes hold
+            if w < 4 and rng.random() < 0.4:
+                slot = (slot & (2 ** (8 * w) - 1)) | (rng.choice([0x5A, 0xFF, 0x01, 0x80]) << (8 * w))
             args.append("i:" + fmt(le8(slot)))
             pre = rng.choice(["", "a", "x=", "%%"]); post = rng.choice(["", "b", "\n", "%%", " %%z"])
             f = pre + "%" + fl + (wd if wd != "0" else "") + pr + ln + cv + post
